@@ -190,6 +190,29 @@ func (env *Env) evalCall(x *ast.CallExpr, st *State) Val {
 					}
 				}
 				return boolVal("false")
+			case "ncalled":
+				// ncalled(Name): how many calls of Name happened on the path that reached this point
+				// (same scope as called(): loops forget the calls of their bodies)
+				if env.callerSide {
+					return env.havoc(st, "ncalled", tInt)
+				}
+				want := ""
+				if id, ok := unparen(x.Args[0]).(*ast.Ident); ok {
+					want = id.Name
+				} else if bl, ok := unparen(x.Args[0]).(*ast.BasicLit); ok && bl.Kind == token.STRING {
+					want, _ = strconv.Unquote(bl.Value)
+				}
+				base := env.callBase
+				if base > len(st.calls) {
+					base = len(st.calls)
+				}
+				n := 0
+				for _, p := range st.calls[base:] {
+					if want != "" && p == want {
+						n++
+					}
+				}
+				return intVal(fmt.Sprint(n))
 			case "blocking":
 				// blocking(f): the function value f waits on a channel when called. For a
 				// function literal this is decided syntactically; otherwise it is an
